@@ -384,7 +384,13 @@ type cell struct {
 	hist   []string
 	ridx   []int
 	failed bool
+	// second pass: every span arrives from an upstream Refinery, i.e. already carrying meta.refinery.original_sample_rate
+	upstreamRefinery bool
 }
+
+// upstreamNoted is the meta.refinery.original_sample_rate an upstream Refinery has already put on the spans of the
+// second pass; it is not a member of the client-rate rotation.
+const upstreamNoted = 5
 
 func (c *cell) nextClient() uint {
 	v := clients[(c.ci+c.n)%len(clients)]
@@ -396,6 +402,11 @@ func (c *cell) span(kind fx.Kind, T uint, phase string, immediate bool) {
 	c.n++
 	sid := fmt.Sprintf("%s.%d", c.id, c.n)
 	spec := fx.SpanSpec{TraceID: c.id, Kind: kind, ID: sid, SampleRate: cl, Fields: map[string]any{"svc": "a", "pad": strings.Repeat("x", 64)}}
+	if c.upstreamRefinery {
+		// the sender is another Refinery that has already sampled this span: it notes the rate IT received (here 5,
+		// different from every client rate of the rotation) and sends its own resulting rate as the sample rate
+		spec.Fields[fieldOrig] = int64(upstreamNoted)
+	}
 	via := "span"
 	if immediate {
 		via = "immediately"
@@ -621,7 +632,11 @@ func (c *cell) check(s fx.Sent, e *exp, when string, rate uint, fields map[strin
 	got := new(big.Int).SetUint64(uint64(rate))
 	tag := e.phase + ":" + cc + when
 	if got.Cmp(want) != 0 {
-		c.violation("sample-rate:"+tag, fmt.Sprintf("forwarded SampleRate is %v, statement says max(client,1) × trace rate = %d × %d = %v", got, base, e.T, want), s, e)
+		sig := "sample-rate:" + tag
+		if c.upstreamRefinery {
+			sig = "sample-rate:span-from-an-upstream-refinery:" + tag
+		}
+		c.violation(sig, fmt.Sprintf("forwarded SampleRate is %v, statement says max(client,1) × trace rate = %d × %d = %v", got, base, e.T, want), s, e)
 	}
 	if e.T < 1 {
 		return
@@ -632,6 +647,9 @@ func (c *cell) check(s fx.Sent, e *exp, when string, rate uint, fields map[strin
 		c.violation("final-sample-rate-meta:wrong:"+tag, fmt.Sprintf("%s is %v (%T), statement says it records the product %v", fieldFinal, v, v, want), s, e)
 	}
 	v, present := fields[fieldOrig]
+	if c.upstreamRefinery && e.client == 0 {
+		return // no rate arrived with the span: whatever the upstream Refinery noted is not this node's to judge
+	}
 	switch {
 	case e.client == 0 && present:
 		c.violation("original-sample-rate-meta:unexpected:"+tag, fmt.Sprintf("%s = %v although the client sent no (zero) rate", fieldOrig, v), s, e)
@@ -665,6 +683,11 @@ func main() {
 			samples++
 			r.Sample(map[string]any{"sampler": c.sc.name, "path": c.pc.name, "history": c.hist, "transmitted": c.f.Tx.Multiset(0)})
 		}
+	})
+	// second pass: the same sampler × path product, every span sent by an upstream Refinery (one rotation offset)
+	enumx.Each(r, "spans from an upstream refinery: sampler x path", []int{len(cases), len(paths)}, 1, func(idx []int) {
+		c := &cell{r: r, ci: 1, sc: cases[idx[0]], pc: paths[idx[1]], exps: map[string]*exp{}, ridx: append([]int{1}, idx...), upstreamRefinery: true}
+		c.run(keptID, droppedID)
 	})
 	// vacuity guards: every decision reason and every phase must really have been exercised
 	if r.NViolations() == 0 {
